@@ -232,7 +232,15 @@ func c17(args []string) {
 		if r2.Hang != "" {
 			if strings.HasPrefix(r2.Hang, "deadlock") {
 				sig := "rerun-hang"
-				if !j.mixed && strings.Contains(r2.HangInfo, "wait_for_partner") || strings.Contains(r2.HangInfo, "fifo") {
+				// the known finding is tied to its cause, not to what /proc shows at the moment of the dump: the producer has
+				// only streaming outputs and the trace of the second run shows that its command was started again
+				prodRestarted := false
+				for _, e := range r2.Trace {
+					if e.Ev == "start" && e.ID == "PROD" {
+						prodRestarted = true
+					}
+				}
+				if !j.mixed && prodRestarted {
 					sig = "rerun-hang:streaming-only-producer-reexecuted-blocks-on-readerless-fifo"
 				}
 				rp = append(rp, mon.Problem{Sig: sig, Msg: "re-running the completed streaming workflow does not terminate: " + r2.Hang + "\n" + clip(r2.HangInfo, 1200)})
